@@ -106,6 +106,14 @@ APPEND = {
  "C01": [("LV.PathExhaust LV.ExecFacts LV.ExecFacts2", "the same on the concrete execution model", [
     ("C01_partial_L_iter_ok2", "L_iter_ok2", "the concrete iteration of the model L satisfies the second contract of dfs_exhaustive (one Active thread per entry, appended entries are fresh)"),
     ("C01_partial_L_exhaustive_complete", "L_exhaustive_complete", "for every program: the exploration of L from the initial path stops by itself and every alternative registered by any of its iterations (Pending thread, further load candidate, spurious branch) is decided by some iteration with the same decisions before it"),
+ ]), ("LV.PathExhaust LV.ExecFacts LV.ExecFacts2 LV.Ref LV.Outcome LV.Witness LV.DporFacts", "The DPOR rule as a theorem (DporFacts.v): every race the dependence check detects is registered on the stack, hence its reversal is explored", [
+    ("C01_partial_sched_backtrack_spec", "sched_backtrack_spec", "EXACT: what Schedule::backtrack does to an entry"),
+    ("C01_partial_backtrack_spec", "backtrack_spec", "EXACT: what Path::backtrack changes: only the nearest exploring Schedule entry at or below the point (and, with a bound, one conservative entry), only by Schedule::backtrack"),
+    ("C01_partial_dpor_loop_registers", "dpor_loop_registers", "for every thread with a pending operation and every last dependent access that does not happen-before it: after the DPOR loop the thread is marked for exploration at the backtrack point (or, if it is disabled there, every thread is)"),
+    ("C01_partial_dpor_loop_mono", "dpor_loop_mono", "marks are never taken back within the loop"),
+    ("C01_partial_race_reversal_explored", "race_reversal_explored", "for the exploration of the concrete model without a bound: a race detected at any scheduling point of any iteration, with the racing thread runnable at the backtrack point, is followed by an iteration with the same decisions up to that point that schedules the racing thread there"),
+    ("C01_partial_run_race_reversal_explored", "run_race_reversal_explored", "the same phrased on a state reached inside iteration k"),
+    ("C01_observed_yield_race_reversal_missed", "yield_race_reversal_missed", "observed (computed): when the racing thread is in state Yield at the backtrack point nothing is registered and the reversed order is never run: yield_now means `not before another thread has run` (loom's documented pruning; outside C01's primitives)"),
  ])],
  "C15": [("LV.PathPreempt", "Preemptions counted independently of the stored counter (PathPreempt.v)", [
     ("C15_switches_le_preemptions", "switches_le_preemptions", "INDEPENDENT READING: the number of context switches away from a still-runnable thread, counted from the recorded schedule entries alone, never exceeds the stored preemption counter"),
